@@ -386,6 +386,66 @@ func simpleAny(r *rand.Rand, depth int) any {
 	}
 }
 
+// ---- Gallina printers for tuple items and the TupleCase of Corr_tuples ----
+var tuplesW *CaseWriter // set by famTyped
+
+func coqDyn(x any) string {
+	if x == nil {
+		return "None"
+	}
+	v := reflect.ValueOf(x)
+	return "(Some (" + coqTy(v.Type()) + ", " + coqGval(v) + "))"
+}
+
+func coqDyns(xs []any) string {
+	var out []string
+	for _, x := range xs {
+		out = append(out, coqDyn(x))
+	}
+	return "[" + strings.Join(out, "; ") + "]"
+}
+
+// run one tuple target (plain when types == nil) and hand the case to the model
+func tupleCase(rep *Report, types []reflect.Type, pre []any, ts []sb.Token, desc string) {
+	if tuplesW == nil {
+		return
+	}
+	preS := coqDyns(pre)
+	var got sb.Tuple
+	var err error
+	if types == nil {
+		tgt := append(sb.Tuple{}, pre...)
+		err = guard(func() error { return copyBudget(tokensFrom(ts), sb.Unmarshal(&tgt)) })
+		got = tgt
+	} else {
+		tt := sb.TypedTuple{Types: types, Values: append(sb.Tuple{}, pre...)}
+		err = guard(func() error { return copyBudget(tokensFrom(ts), sb.Unmarshal(&tt)) })
+		got = tt.Values
+	}
+	rep.Evaluations++
+	rep.count("api:tuple-case:" + classOf(err))
+	if classOf(err) == "EPanic" {
+		rep.violate("C05", "unmarshal-panic", fmt.Sprintf("%v", err), desc)
+		return
+	}
+	obs := "(TErr " + classOf(err) + ")"
+	if err == nil {
+		obs = "(TOk " + coqDyns(got) + ")"
+	}
+	tys := "None"
+	if types != nil {
+		var xs []string
+		for _, t := range types {
+			xs = append(xs, coqTy(t))
+		}
+		tys = "(Some [" + strings.Join(xs, "; ") + "])"
+	}
+	term := fmt.Sprintf("TupleCase %s %s %s %s %s %s", coqRegistry(), tys, preS, coqTokens(ts), floatTable(ts), obs)
+	if len(term) < 30000 {
+		tuplesW.add(term, "tuple target: "+desc, len(ts) >= 3)
+	}
+}
+
 func apiTuples(repM, repU *Report, r *rand.Rand, n int) {
 	for i := 0; i < n; i++ {
 		k := r.Intn(5)
@@ -460,6 +520,34 @@ func apiTuples(repM, repU *Report, r *rand.Rand, n int) {
 				}
 			}
 		}
+		// the same runs, and a few broken ones, for the model (Model/Tuples.v)
+		if k < 12 {
+			tupleCase(repU, nil, nil, ts, desc)
+			tupleCase(repU, types, nil, ts, desc)
+			if k > 0 {
+				tupleCase(repU, types[:k-1], nil, ts, desc+" (one type fewer)")
+				tupleCase(repU, nil, nil, ts[:1+r.Intn(len(ts)-1)], desc+" (cut)")
+				// a pre-filled target: typed zero values in some positions, nil in others, one position more than the stream has
+				pre := make([]any, k+1)
+				for j := 0; j < k; j++ {
+					if tup[j] != nil && types[j] != anyType && r.Intn(3) != 0 {
+						pre[j] = reflect.Zero(types[j]).Interface()
+					}
+				}
+				pre[k] = "kept"
+				tupleCase(repU, nil, pre, ts, desc+" (pre-filled target)")
+				tupleCase(repU, types, pre[:k], ts, desc+" (pre-filled typed target)")
+				// a position pre-filled with a value of ANOTHER type than the item
+				pre2 := make([]any, k)
+				pre2[r.Intn(k)] = []string{"x"}
+				tupleCase(repU, nil, pre2, ts, desc+" (pre-filled with another type)")
+				mut := append([]sb.Token{}, ts...)
+				mut[1+r.Intn(len(mut)-1)] = []sb.Token{tokK(sb.KindArrayEnd), tokK(sb.KindNil), {Kind: sb.KindLiteral, Value: "12"}, tokK(sb.KindTupleEnd), tokK(sb.KindMin)}[r.Intn(5)]
+				tupleCase(repU, types, nil, mut, desc+" (one token replaced)")
+				tupleCase(repU, nil, nil, mut, desc+" (one token replaced)")
+			}
+			tupleCase(repU, append(append([]reflect.Type{}, types...), reflect.TypeOf(0)), nil, ts, desc+" (one type more)")
+		}
 		// (3) too few / too many types
 		if k > 0 {
 			few := sb.TypedTuple{Types: types[:k-1]}
@@ -515,6 +603,12 @@ func apiTuples(repM, repU *Report, r *rand.Rand, n int) {
 		repU.violate("C01", "tuple-types", fmt.Sprintf("TupleTypes gives %v and %v, expected %v", t1, t2, wantT), "sb.TupleTypes")
 	}
 	// rejections of a *Tuple / *TypedTuple target
+	for _, tk := range []sb.Token{tokI(1), tokK(sb.KindArray), tokK(sb.KindNil), tokS("x"), {Kind: sb.KindLiteral, Value: "1"}, tokK(sb.KindTupleEnd), {Kind: sb.KindTypeName, Value: "main.RegInt"}} {
+		tupleCase(repU, nil, nil, []sb.Token{tk, tokK(sb.KindArrayEnd)}, "head token "+descToken(tk))
+		tupleCase(repU, []reflect.Type{reflect.TypeOf(0)}, nil, []sb.Token{tk, tokK(sb.KindArrayEnd)}, "head token "+descToken(tk))
+	}
+	tupleCase(repU, nil, nil, []sb.Token{tokK(sb.KindTuple)}, "unclosed")
+	tupleCase(repU, []reflect.Type{reflect.TypeOf(0), reflect.TypeOf("")}, nil, []sb.Token{tokK(sb.KindTuple), tokI(1)}, "unclosed")
 	for _, tk := range []sb.Token{tokI(1), tokK(sb.KindArray), tokK(sb.KindNil), tokS("x")} {
 		var t sb.Tuple
 		e := guard(func() error { return copyBudget(tokensFrom([]sb.Token{tk, tokK(sb.KindArrayEnd)}), sb.Unmarshal(&t)) })
